@@ -114,6 +114,9 @@ pub struct ModSpec {
     /// at_sim_end returns an error
     #[serde(default)]
     pub end_err: bool,
+    /// the scripted at_sim_start panic (`panic_at`) only happens in this incarnation (0 = initial start)
+    #[serde(default)]
+    pub panic_inc: u16,
 }
 
 #[derive(Debug)]
@@ -156,6 +159,9 @@ pub struct NetProgram {
     /// connect calls issued by the external driver while the simulation is paused at `at_ns` (closing chains into rings)
     #[serde(default)]
     pub late_links: Vec<(u64, Link)>,
+    /// links with equal channel metrics are connected with one and the same `ChannelRef` object
+    #[serde(default)]
+    pub share_channels: bool,
 }
 
 // ---------------------------------------------------------------- trace
@@ -449,7 +455,7 @@ impl Module for ScriptMod {
         }
         rec(self.idx, Ev::Start { stage: stage as u8, inc: self.inc });
         let spec = self.spec().clone();
-        if spec.panic_at as usize == stage {
+        if spec.panic_at as usize == stage && spec.panic_inc == self.inc {
             if is_twin() {
                 go_silent(self.idx);
                 return;
@@ -965,9 +971,16 @@ pub fn run_net(prog: &NetProgram, opts: &RunOpts) -> NetResult {
             let (name, _, pos) = &f[g as usize % f.len()];
             refs[m].as_ref().and_then(|r| r.gate(name, *pos))
         };
+        let mut shared: BTreeMap<u64, ChannelRef> = BTreeMap::new();
         for (li, l) in prog.links.iter().enumerate() {
             let (Some(a), Some(b)) = (gate_of(l.am as usize, l.ag), gate_of(l.bm as usize, l.bg)) else { continue };
-            let ch = l.chan.as_ref().map(to_channel);
+            let ch = l.chan.as_ref().map(|c| {
+                if prog.share_channels {
+                    shared.entry(hash64(c)).or_insert_with(|| to_channel(c)).clone()
+                } else {
+                    to_channel(c)
+                }
+            });
             let r = std::panic::catch_unwind(std::panic::AssertUnwindSafe(|| {
                 if l.flip {
                     b.connect(a, ch);
@@ -991,6 +1004,7 @@ pub fn run_net(prog: &NetProgram, opts: &RunOpts) -> NetResult {
             drop(sim);
             return (build, None, false);
         }
+        drop(shared);
         if opts.collect_gate_info {
             for m in 0..nmod {
                 for gi in 0..flat[m].len() {
